@@ -93,7 +93,7 @@ const (
 func (f *fsm) cleanup() {
 	if f.cancelDialFn != nil {
 		f.cancelDialFn()
-		<-f.dialResultCh
+		f.closeDialedConn(<-f.dialResultCh)
 	}
 	f.cleanupConnAndReader()
 	for _, t := range []*time.Timer{f.connectRetryTimer, f.holdTimer,
@@ -101,6 +101,14 @@ func (f *fsm) cleanup() {
 		if t != nil {
 			t.Stop()
 		}
+	}
+}
+
+// closeDialedConn closes the connection of a dial that completed successfully
+// while it was being cancelled. dr is nil if the result was already consumed.
+func (f *fsm) closeDialedConn(dr *dialResult) {
+	if dr != nil && dr.conn != nil {
+		dr.conn.Close()
 	}
 }
 
@@ -309,7 +317,7 @@ func (f *fsm) connect() fsmState {
 		select {
 		case <-f.closeCh:
 			f.cancelDialFn()
-			<-f.dialResultCh
+			f.closeDialedConn(<-f.dialResultCh)
 			f.connectRetryTimer.Stop()
 			return disabledState
 		case dr := <-f.dialResultCh:
